@@ -91,7 +91,7 @@ def sweep_shard(cells, b, p):
             elif t == "b":
                 pools.append([0, 1])
             elif t == "f":
-                pools.append([["f", 3, 2], ["f", -1, 1]])
+                pools.append([["f", 3, 2], ["f", -1, 1], ["f", 2, 1], ["f", 1, 4]])
             else:
                 pools.append(ipool)
         for vals in itertools.product(*pools):
